@@ -182,6 +182,14 @@ func runSelfTest(pd *PropDoc, verif string) []selfTestResult {
 	seeds, _ := filepath.Glob(filepath.Join(verif, "seeded", pd.ID+"-[st]*", "patch.diff"))
 	sort.Strings(seeds)
 	ents = append(ents, seeds...)
+	openKnown := map[string]bool{}
+	if ks, err := loadKnown(filepath.Join(verif, "known_findings.json")); err == nil {
+		for _, k := range ks {
+			if k.Status == "open" {
+				openKnown[k.Key] = true
+			}
+		}
+	}
 	var res []selfTestResult
 	for _, p := range ents {
 		var v *variant
@@ -211,7 +219,8 @@ func runSelfTest(pd *PropDoc, verif string) []selfTestResult {
 		execPass(run, pd, "", ov)
 		fired := map[string]bool{}
 		for _, o := range run.obs {
-			if o.Verdict != VOK {
+			if o.Verdict != VOK && !openKnown[o.Key] {
+				// an open known finding of the unchanged tree is not a reaction to the variant
 				fired[strings.TrimPrefix(o.Rule, pd.ID+".")] = true
 			}
 		}
@@ -226,7 +235,13 @@ func runSelfTest(pd *PropDoc, verif string) []selfTestResult {
 		}
 		sort.Strings(fl)
 		st := "ok"
-		if v.Expect == "not-decided" {
+		if strings.HasPrefix(v.Expect, "elsewhere:") {
+			// the change breaks a clause that another property's check decides (named in the expectation)
+			st = "decided by " + strings.TrimPrefix(v.Expect, "elsewhere:")
+			if len(fl) > 0 {
+				st = "ok (now caught here too)"
+			}
+		} else if v.Expect == "not-decided" {
 			// documented limit: the change breaks the property but no structural rule decides it
 			st = "not-decided (documented)"
 			if len(fl) > 0 {
